@@ -92,4 +92,63 @@ theorem env_not_for_unmatched (rules : List Rule) (executed : List (String × Li
 /-! ## Non-vacuity -/
 example : enabled ["a", "b", "c"] [⟨["c", "a"], [true, false]⟩, ⟨["b"], [false, false]⟩] [0, 1] = ["a", "c"] := by decide
 
+/-! ## The script loop: serially, in definition order -/
+
+/-- what is running at each point of an event list: a script between its `spawn` and its `finished` -/
+def SerialFrom : List SEv → Prop
+  | [] => True
+  | .started _ :: .spawn i :: .finished j :: rest => i = j ∧ SerialFrom rest
+  | .started _ :: rest => (∀ i, rest.head? ≠ some (.spawn i)) ∧ SerialFrom rest
+  | _ => False
+
+private theorem runFrom_spec (env : LoopEnv) : ∀ (n i : Nat),
+    SerialFrom (runFrom env i n).1 ∧
+    scriptSpawns (runFrom env i n).1 = (List.range' i n).filter env.ack ∧
+    (runFrom env i n).2 = (List.range' i n).filter (fun k => env.ack k && env.ok k) ∧
+    (∀ k, (runFrom env i n).1.head? ≠ some (.spawn k)) := by
+  intro n
+  induction n with
+  | zero => intro i; simp [runFrom, SerialFrom, scriptSpawns]
+  | succ n ih =>
+    intro i
+    obtain ⟨h1, h2, h3, h4⟩ := ih (i + 1)
+    simp only [runFrom]
+    by_cases ha : env.ack i = true
+    · simp only [ha, if_true, List.cons_append, List.nil_append, SerialFrom, scriptSpawns, List.range'_succ, List.filter_cons, Bool.true_and]
+      refine ⟨⟨trivial, h1⟩, by rw [h2], ?_, by intro k; simp⟩
+      by_cases ho : env.ok i = true
+      · simp [ho, h3]
+      · simp [ho, h3]
+    · have ha' : env.ack i = false := by simpa using ha
+      simp only [ha', Bool.false_eq_true, if_false, scriptSpawns, List.range'_succ, List.filter_cons, Bool.false_and]
+      refine ⟨?_, h2, h3, by intro k; simp⟩
+      cases hrest : (runFrom env (i + 1) n).1 with
+      | nil => simp [SerialFrom]
+      | cons e es =>
+        rw [hrest] at h1 h4
+        cases e with
+        | spawn k => exact absurd rfl (h4 k)
+        | started k => exact ⟨by intro j; simp, h1⟩
+        | finished k => exact ⟨by intro j; simp, h1⟩
+
+/-- **setup scripts run one at a time, in the order in which they are defined**: in the event list of `run_setup_scripts`, every
+    spawn is directly preceded by that script's acknowledged start and directly followed by its own `finished` — so script `i+1`
+    starts only after script `i` has finished — and the scripts spawned are exactly the acknowledged ones, in index order -/
+theorem scripts_serial_in_order (env : LoopEnv) (total : Nat) :
+    SerialFrom (runScripts env total).1 ∧ scriptSpawns (runScripts env total).1 = (List.range total).filter env.ack := by
+  obtain ⟨h1, h2, _, _⟩ := runFrom_spec env total 0
+  exact ⟨h1, by simpa [runScripts, List.range_eq_range'] using h2⟩
+
+/-- a script whose start the dispatcher refuses (a previous script failed — `C10.script_failure_always_cancels` — or the run
+    was cancelled otherwise) is not run, and **only scripts that ran successfully with a well-formed env file contribute
+    variables** (in script order, which `env_scope` then resolves last-wins) -/
+theorem scripts_data (env : LoopEnv) (total : Nat) :
+    (runScripts env total).2 = (List.range total).filter (fun k => env.ack k && env.ok k) := by
+  obtain ⟨_, _, h3, _⟩ := runFrom_spec env total 0
+  simpa [runScripts, List.range_eq_range'] using h3
+
+-- non-vacuity: three scripts, the second fails; the dispatcher then refuses the third
+example : runScripts { ack := fun i => decide (i < 2), ok := fun i => i == 0 } 3 =
+    ([.started 0, .spawn 0, .finished 0, .started 1, .spawn 1, .finished 1, .started 2], [0]) := by decide
+
 end NextestModel.C18
